@@ -59,7 +59,8 @@ fn parse_dims(s: &str) -> Option<[i8; 7]> {
 pub fn db() -> &'static RefDb {
     static DB: OnceLock<RefDb> = OnceLock::new();
     DB.get_or_init(|| {
-        let path = "/repo/unit-gen/units.txt";
+        let path = format!("{}/unit-gen/units.txt", crate::engine::repo_dir());
+        let path = path.as_str();
         let text = std::fs::read_to_string(path).unwrap_or_else(|e| crate::engine::machinery(&format!("{path}: {e}")));
         let mut quantity = String::new();
         let mut units = vec![];
